@@ -71,10 +71,18 @@ class Pipe(object):
 
     def _get(self, q):
         try:
-            return q.get(timeout=LIMIT)
+            x = q.get(timeout=LIMIT)
         except queue.Empty:
             self.stuck = True
             raise nfc.clf.TimeoutError("sim: peer silent")
+        if x is None:                 # the peer's run loop has ended: the link is gone
+            q.put(None)
+            raise nfc.clf.TimeoutError("sim: link lost")
+        return x
+
+    def link_lost(self):
+        for q in (self.i2t, self.t2i, self.act_i, self.act_t):
+            q.put(None)
 
 
 def make_macs(pipe):
@@ -136,6 +144,8 @@ class Link(object):
                     self.llc[side].run(terminate=lambda: self.stop)
             except SystemExit:
                 pass
+            finally:
+                self.pipe.link_lost()
         for side, mac in (('t', self.mac_t), ('i', self.mac_i)):
             th = threading.Thread(target=runner, args=(side, mac))
             th.daemon = True
